@@ -119,6 +119,12 @@ def gen_message(rng, kind=None, size="small", tsig_ok=False):
             op = rng.choice(("add", "add", "replace", "delete_name", "delete_rrset", "delete_rr", "present_name", "present_rrset", "present_rr", "absent_name", "absent_rrset"))
             owner = lname((GN.simple_label(rng),) + zone) if RN.fits((b"xxxxxxxx",) + zone) else lname(zone)
             rr = gen_rrset(rng, pool, types, None, False, rdclass=zclass)
+            if rng.random() < 0.15:
+                # a record whose RDATA is zero octets long (an empty APL, an unknown type without data): in the class-NONE
+                # "delete this RR" form it must still come back as one record, not as an empty set
+                rdt = rng.choice((42, 65280, 10)) if zclass == 1 else rng.choice((65280, 10))
+                rr = dns.rrset.RRset(lname(pool.name()), zclass, rdt)
+                rr.add(dns.rdata.from_wire(zclass, rdt, b"", 0, 0), rng.choice((0, 300)))
             if rr is None:
                 continue
             if op == "add":
